@@ -46,6 +46,8 @@ def _shape_cases():
     for dt in (np.float64, np.float32, np.int64):
         out += [('()', np.array(2, dtype=dt)), ('(1,)', np.array([2], dtype=dt)), ('(1,1)', np.array([[2]], dtype=dt)),
                 ('(3,)', np.array([1, 2, 3], dtype=dt)), ('(1,3)', np.array([[1, 2, 3]], dtype=dt)), ('(3,1)', np.array([[1], [2], [3]], dtype=dt))]
+    # boolean single-valued predictions (a classifier trained on bool labels)
+    out += [('()', np.array(True)), ('(1,)', np.array([True])), ('(1,1)', np.array([[False]]))]
     return out
 
 
@@ -65,7 +67,11 @@ def BOUNDED(tier, seed):
     for shape, arr in _shape_cases():
         evals += 1
         distinct.add(('shape', shape, str(arr.dtype)))
-        out = w.convert_arr_output_to_dict(arr)
+        try:
+            out = w.convert_arr_output_to_dict(arr)
+        except Exception as ex:   # noqa  (a numeric / boolean prediction is valid input)
+            fail('size_one_output' if arr.size == 1 else 'vector_output', f'convert_arr_output_to_dict(shape {shape}, {arr.dtype}) raised {ex!r}')
+            continue
         flat = arr.flatten()
         exp = {'output': float(flat[0])} if arr.size == 1 else {i: flat[i] for i in range(arr.size)}
         if set(out) != set(exp) or any(float(out[k]) != float(exp[k]) for k in exp):
